@@ -84,8 +84,15 @@ def has_dup_dfs(graph, root):
 def oracle(prop, graph, init, ops, obs):
     """Yields (signature, detail). `graph` is the Lean-side graph (real positions)."""
     prev = init
+    before_sched = {}
     for i, (op, o) in enumerate(zip(ops, obs)):
         cur = o["tasks"]
+        if prop == "C06" and o["out"] == "ok" and "n" in op and op["n"] < len(prev):
+            # "may fall back from SCHEDULED to its earlier state": the state it was scheduled from
+            if op["op"] == "schedule" and prev[op["n"]][0] != "SCHEDULED":
+                before_sched[op["n"]] = prev[op["n"]][0]
+            elif op["op"] == "unschedule" and op["n"] in before_sched and cur[op["n"]][0] in ("VIRTUAL", "RELEASED") and cur[op["n"]][0] != before_sched[op["n"]]:
+                yield (f"C06 unschedule-falls-back-to-{cur[op['n']][0]}-instead-of-the-earlier-state-{before_sched[op['n']]}", {"step": i, "task": op["n"]})
         pst = [t[0] for t in prev]
         cst = [t[0] for t in cur]
         name = op["op"]
@@ -99,6 +106,12 @@ def oracle(prop, graph, init, ops, obs):
                 # these calls must move the task on: SCHEDULED -> its state before scheduling / RUNNING / COMPLETED
                 if cst[op["n"]] == pst[op["n"]]:
                     yield (f"C06 lifecycle-call-returned-without-changing-the-state via={name} state={pst[op['n']]}", {"step": i, "task": op["n"]})
+            if name == "cancel" and o["out"] == "ok" and isinstance(o["ret"], list):
+                # "returns the tasks that were cancelled as a result": exactly the tasks this call moved to CANCELLED
+                # (a request for an already cancelled task cancels nothing and reports nothing)
+                newly = sorted(k for k in range(len(cst)) if cst[k] == "CANCELLED" and pst[k] != "CANCELLED")
+                if sorted(o["ret"]) != newly:
+                    yield (f"C06 cancel-reports-other-tasks-than-it-cancelled root-state={pst[op['n']] if op['n'] < len(pst) else '?'}", {"step": i, "returned": sorted(o["ret"]), "cancelled": newly})
             if name == "cancel" and o["out"] == "ok":
                 root = op["n"]
                 # precondition (reachable through TaskGraph.cancel only): a cancelled task's
